@@ -126,15 +126,23 @@ def sec_pns():
         raise TranslateError('zpt: `safe_longest_time_const(hw) * A / B` expected, found `%s`' % unparse(z))
     zmul, zdiv = const_num(z.left.right), const_num(z.right)
     pads = []
+    pad_min = []
     for nm in ('pad1', 'pad2'):
         p = assign_value(gp, nm)
+        lo = 0
+        # repaired form `max(round(zpt / K / dt), 1)` (at least one leading zero sample) is accepted as well
+        if isinstance(p, ast.Call) and unparse(p.func) == 'max' and len(p.args) == 2 and not p.keywords:
+            lo = const_int(p.args[1])
+            p = p.args[0]
         ok = (isinstance(p, ast.Call) and unparse(p.func) == 'round' and len(p.args) == 1 and not p.keywords
               and isinstance(p.args[0], ast.BinOp) and isinstance(p.args[0].op, ast.Div)
               and unparse(p.args[0].right) == 'dt' and isinstance(p.args[0].left, ast.BinOp)
               and isinstance(p.args[0].left.op, ast.Div) and unparse(p.args[0].left.left) == 'zpt')
-        if not ok:
-            raise TranslateError('%s: `round(zpt / K / dt)` expected, found `%s`' % (nm, unparse(p)))
+        if not ok or lo < 0:
+            raise TranslateError('%s: `round(zpt / K / dt)` or `max(round(zpt / K / dt), m)` expected, found `%s`'
+                                 % (nm, unparse(assign_value(gp, nm))))
         pads.append(const_num(p.args[0].left.right))
+        pad_min.append(lo)
     expect(assign_value_in_if(gp, 'gwf'), 'np.pad(gwf, ((pad1, pad2), (0, 0)))', 'gradient padding')
     expect(assign_value_in_if(gp, 'rf'), 'np.pad(rf, (pad1, pad2))', 'rf padding')
     expect(assign_value(gp, 'dgdt'), 'np.diff(gwf, axis=0) / dt', 'slew rate')
@@ -237,7 +245,7 @@ def sec_pns():
         raise TranslateError('get_gradients: PPoly construction changed')
 
     CONSTS['pns'] = {'eps': eps, 'ms': ms, 'pct': pct, 'unpct': unpct, 'strict': strict, 'branches': br,
-                     'slack': slack, 'centre': centre, 'teps': teps}
+                     'slack': slack, 'centre': centre, 'teps': teps, 'pad_min': pad_min}
     out = HEADER % (SAFE + ', ' + CALC + ', ' + SEQ + ' (get_gradients)')
     out += 'Open Scope Q_scope.\n'
     out += '(* safe_tau_lowpass: alpha = %s *)\n' % unparse(assign_value(lp, 'alpha'))
@@ -253,6 +261,7 @@ def sec_pns():
         zmul, zdiv, pads[0], pads[1])
     out += 'Definition zpt_mul : Q := %s.\nDefinition zpt_div : Q := %s.\n' % (coq_Q(zmul), coq_Q(zdiv))
     out += 'Definition pad1_div : Q := %s.\nDefinition pad2_div : Q := %s.\n' % (coq_Q(pads[0]), coq_Q(pads[1]))
+    out += 'Definition pad1_min : nat := %d.\nDefinition pad2_min : nat := %d.\n' % (pad_min[0], pad_min[1])
     out += 'Definition hw_weight_tol : Q := %s.\n' % coq_Q(hw_tol)
     out += '(* calc_pns *)\n'
     out += 'Definition centre_offset : Q := %s.\n' % coq_Q(centre)
